@@ -228,19 +228,27 @@ func exchange(c *fw.Ctx, ctx context.Context, conn *websocket.Conn, mc *memConn,
 	// promised not to use context takeover.
 	recv := &pmd.Receiver{NoContextTakeover: libNoCtx}
 	mc.takeOut()
-	for i, msg := range c14Msgs {
+	// a fourth message is streamed with a first chunk below every threshold and later
+	// chunks above it (whether a message is compressed is decided by its first chunk)
+	l2p := append(append([][]byte(nil), c14Msgs...), c14Msgs[1])
+	for i, msg := range l2p {
 		var werr error
 		if p := fw.Recover(func() {
-			if i == 1 {
+			if i == 1 || i == 3 {
 				// the second message is streamed in chunks of 700 bytes (each above the default thresholds)
+				sizes := []int{700}
+				if i == 3 {
+					sizes = []int{50, 700, 50, 900}
+				}
 				var wr io.WriteCloser
 				wr, werr = conn.Writer(ctx, websocket.MessageText)
-				for off := 0; werr == nil && off < len(msg); off += 700 {
-					end := off + 700
+				for off, k := 0, 0; werr == nil && off < len(msg); k++ {
+					end := off + sizes[k%len(sizes)]
 					if end > len(msg) {
 						end = len(msg)
 					}
 					_, werr = wr.Write(msg[off:end])
+					off = end
 				}
 				if werr == nil {
 					werr = wr.Close()
